@@ -305,6 +305,10 @@ func (x *ctx) run(c Case) {
 				}
 				return nil
 			})
+			// a reader that goes on after the first error: every further call is a call of its own
+			for i := 0; i < 6; i++ {
+				x.call("json.NextLexeme(after the end or an error)", func() error { _, err := doc.NextLexeme(); return err })
+			}
 		}
 	}
 	// the schema: rules before load, types before compile
